@@ -358,6 +358,7 @@ inductive Sink
   | ownPacket           -- on_packet_from_circuit(origin, data, circuit_id): IPv8 packet of the tunnel community itself
   | otherCommunity      -- endpoint.notify_listeners((origin, data), from_tunnel=True)
   | droppedNoTunnelEndpoint
+  | droppedNestedData   -- a DATA message (id 1) inside a tunnel-community packet: refused (repo fix 6e0f2ad)
   | exitSocket          -- exit_data(...)
   | droppedZeroDest
   deriving DecidableEq, Repr
@@ -372,7 +373,7 @@ def onDataSink (own : Option CType) (originSet fromFirstHop : Bool) (pfx : Bytes
   | some ct =>
     if originSet && fromFirstHop then
       if couldBeIpv8 data && !isE2EType ct then
-        if data.take 22 == pfx then .ownPacket
+        if data.take 22 == pfx then (if data[22]? == some 1 then .droppedNestedData else .ownPacket)
         else if tunnelEp then .otherCommunity else .droppedNoTunnelEndpoint
       else .raw
     else exitBranch
@@ -429,6 +430,13 @@ def XSock.held (s : XSock) : List Nat := (s.out ++ s.queue ++ s.pending).map Pro
 def XEv.sentId : XEv → List Nat
   | .send i _ => [i]
   | _ => []
+
+/-- `TunnelEndpoint.notify_listeners(packet, from_tunnel=True)` as it is meant (the `otherCommunity` sink of `onDataSink`):
+    of the overlays loaded on the endpoint — each with its 22-byte prefix and its `anonymize` flag — exactly those that
+    are registered for the packet's prefix AND are anonymized get the packet; overlays that are not anonymized never get
+    anything out of a tunnel.  Result: indices into `overlays`. -/
+def tunnelDelivery (overlays : List (Bytes × Bool)) (packet : Bytes) : List Nat :=
+  (overlays.zipIdx.filter (fun (o : (Bytes × Bool) × Nat) => o.1.1 == packet.take 22 && o.1.2)).map (·.2)
 
 end
 
